@@ -76,6 +76,7 @@ type outcome struct {
 const repoPrefix = "github.com/nuts-foundation/nuts-node/"
 
 var genericArgs = regexp.MustCompile(`\[[^\]]*\]`)
+var shimFrame = regexp.MustCompile(`\.Verif[A-Z]`)
 
 // panicSite returns the function of the top-most stack frame that belongs to the repository (shim and driver frames
 // excluded); when the panic happened in a library called directly by the driver: the top-most library frame.
@@ -107,8 +108,8 @@ func panicSite(stack string) string {
 		}
 		if strings.HasPrefix(fn, repoPrefix) {
 			short := strings.TrimPrefix(fn, repoPrefix)
-			if strings.Contains(short, ".Verif") {
-				continue // shim frame
+			if shimFrame.MatchString(short) {
+				continue // shim frame (zz_verif_*.go, functions named Verif<Name>)
 			}
 			return short
 		}
@@ -210,6 +211,8 @@ type caseResult struct {
 	Error    string           `json:"error,omitempty"`
 	MaxUs    int64            `json:"max_us"`
 	Distinct int              `json:"distinct_inputs"`
+	Outcomes []string         `json:"outcomes,omitempty"` // calibration only
+	WallMs   int64            `json:"wall_ms"`
 }
 
 type world struct {
@@ -224,6 +227,22 @@ func (w *world) add(e *entryPoint) { w.eps[e.name] = e }
 // concretise returns the concrete inputs of one TLC case.
 func (w *world) concretise(e *entryPoint, c caseSpec, in driverInput, rnd *rand.Rand) []concrete {
 	var out []concrete
+	if c.Op == "valid" {
+		// calibration: the unmodified valid instances (not a case of the model)
+		if e.instances != nil {
+			for _, inst := range e.instances(w.level) {
+				out = append(out, concrete{desc: inst.name + ":valid", input: renderVariant(inst, inst.order[0], variant{})})
+			}
+		}
+		if e.gen != nil {
+			for _, cc := range e.gen("unusual", "top", w.level, rnd) {
+				if strings.Contains(cc.desc, "valid") {
+					out = append(out, cc)
+				}
+			}
+		}
+		return out
+	}
 	if c.Op == "random" {
 		if e.instances == nil {
 			return nil
@@ -363,6 +382,9 @@ func (w *world) runCase(c caseSpec, in driverInput) caseResult {
 		if res.Sample == nil || (k == len(inputs)/2) {
 			res.Sample = &replaySpec{EP: c.EP, Input: b64(trunc2(ci.input, 4096)), Desc: ci.desc + " -> " + o.Kind + " " + trunc(o.Detail, 80)}
 		}
+		if c.Op == "valid" {
+			res.Outcomes = append(res.Outcomes, ci.desc+" -> "+o.Kind+" "+o.Detail+o.Value)
+		}
 		switch o.Kind {
 		case "accept", "reject":
 			post := "-"
@@ -479,7 +501,9 @@ func TestDriver(t *testing.T) {
 	cases := append([]caseSpec(nil), in.Cases...)
 	sort.SliceStable(cases, func(i, j int) bool { return cases[i].ID < cases[j].ID })
 	for _, c := range cases {
+		t0 := time.Now()
 		res := w.runCase(c, in)
+		res.WallMs = time.Since(t0).Milliseconds()
 		if err := enc.Encode(res); err != nil {
 			t.Fatal(err)
 		}
